@@ -125,8 +125,8 @@ def build_driver():
     rc, out = sh(["coqc", "-Q", COQ, "ElfioV", os.path.join(COQ, "Extract.v")], cwd=OCAML, timeout=600)
     if rc != 0:
         return False, out
-    rc, out2 = sh(["ocamlfind", "ocamlopt", "-O3", "-w", "-a", "model.mli", "model.ml", "driver.ml",
-                   "-o", "model_driver"], cwd=OCAML, timeout=600)
+    rc, out2 = sh(["ocamlfind", "ocamlopt", "-package", "unix", "-linkpkg", "-O3", "-w", "-a", "model.mli", "model.ml",
+                   "driver.ml", "-o", "model_driver"], cwd=OCAML, timeout=600)
     return rc == 0, out + out2
 
 
